@@ -727,7 +727,12 @@ def instance(cfg):
         inst = S.make_sp(S.sp_config(sp=svc, **top))
     elif cfg["role"] == "idp":
         svc = copy.deepcopy(cfg["svc"])
-        inst = S.make_idp(S.idp_config(idp=svc, **top))
+        if top.pop("sp_no_enc", False):  # the requester publishes a signing key only
+            sp_ent = S.default_sp_entity()
+            sp_ent["spsso"] = dict(sp_ent["spsso"], keys=[("signing", "sp")])
+            inst = S.make_idp(S.idp_config(sp_entities=[sp_ent], idp=svc, **top))
+        else:
+            inst = S.make_idp(S.idp_config(idp=svc, **top))
     else:
         from saml2.config import Config
 
@@ -1122,6 +1127,8 @@ def call_attribute_query(sp, a):
         if k in a:
             kw[k] = a[k]
     name_id = mk_nameid(a["name_id"]) if "name_id" in a else a.get("name_id_str")
+    if "extensions" in a:
+        kw["extensions"] = mk_extensions(a["extensions"])
     attribute = None
     if a.get("attribute"):
         attribute = {}
@@ -1148,6 +1155,8 @@ def call_authn_query(sp, a):
     for k in ("session_index", "message_id"):
         if k in a:
             kw[k] = a[k]
+    if "extensions" in a:
+        kw["extensions"] = mk_extensions(a["extensions"])
     return sp.create_authn_query(mk_subject(a["subject"]), destination=a.get("destination"), authn_context=mk_rac(a.get("authn_context")), **kw)[1]
 
 
@@ -1175,6 +1184,10 @@ def call_authz_decision_query(sp, a):
     kw = sign_kw(a)
     if "message_id" in a:
         kw["message_id"] = a["message_id"]
+    if "extensions" in a:
+        kw["extensions"] = mk_extensions(a["extensions"])
+    if a.get("evidence"):
+        kw["evidence"] = saml.Evidence(assertion_id_ref=[saml.AssertionIDRef(text="id-ev1")], assertion=_an_assertion())
     actions = [saml.Action(text=t, namespace=ns) for t, ns in a["action"]]
     if a["via_assertion"]:
         ass = _an_assertion()
@@ -1198,6 +1211,8 @@ def call_artifact_resolve(ent, a):
     kw = sign_kw(a)
     if "consent" in a:
         kw["consent"] = a["consent"]
+    if "extensions" in a:
+        kw["extensions"] = mk_extensions(a["extensions"])
     return ent.create_artifact_resolve(art, a["destination"], a["sessid"], **kw)[1]
 
 
@@ -1294,6 +1309,8 @@ def call_authn_response(idp, a):
             kw[k] = S.cert_b64(a[k])
     if a.get("status"):
         kw["status"] = mk_status(a.get("status"))
+    if a.get("farg") is not None:
+        kw["farg"] = copy.deepcopy(a["farg"])  # update_farg completes the caller's tree in place
     return _nil_crash(lambda: idp.create_authn_response(a["identity"], a["in_response_to"], a["destination"], a["sp_entity_id"], **kw))
 
 
@@ -1332,6 +1349,8 @@ def call_attribute_response(idp, a):
         kw["name_id"] = mk_nameid(a["name_id"])
     if a.get("status"):
         kw["status"] = mk_status(a.get("status"))
+    if a.get("farg") is not None:
+        kw["farg"] = copy.deepcopy(a["farg"])
     return _nil_crash(lambda: idp.create_attribute_response(a["identity"], a["in_response_to"], a["destination"], a["sp_entity_id"], **kw))
 
 
@@ -1399,6 +1418,8 @@ def call_manage_name_id_request(ent, a):
     kw = sign_kw(a)
     if "message_id" in a:
         kw["message_id"] = a["message_id"]
+    if "extensions" in a:
+        kw["extensions"] = mk_extensions(a["extensions"])
     from saml2 import saml
 
     if "new_id" in a:
@@ -1459,7 +1480,8 @@ def call_name_id_mapping_request(sp, a):
 
     pol = samlp.NameIDPolicy(**{k: v for k, v in a["name_id_policy"].items() if v is not None})
     base_id = saml.BaseID(**a["base_id"]) if a.get("base_id") else None
-    return _refusal(lambda: sp.create_name_id_mapping_request(pol, name_id=mk_nameid(a.get("name_id")), base_id=base_id,
+    ekw = {"extensions": mk_extensions(a["extensions"])} if "extensions" in a else {}
+    return _refusal(lambda: sp.create_name_id_mapping_request(pol, name_id=mk_nameid(a.get("name_id")), base_id=base_id, **ekw,
                                                               encrypted_id=mk_encrypted(saml.EncryptedID, a.get("encrypted_id")),
                                                               destination=a.get("destination"), **sign_kw(a))[1],
                     ValueError, "At least one of")
@@ -1593,6 +1615,8 @@ BUILDERS = {
 }
 
 K_NIM_STATUS = "C13/name-id-mapping-response-without-status"
+K_PEFIM_NOCERT = "C13/pefim-without-encryption-certificate-advice-in-clear"
+K_EP_STRING = "C13/required-endpoint-as-string-without-default-binding-dropped"
 _recorded = []
 
 
@@ -1622,6 +1646,10 @@ def is_strict(case):
       an abstract type and no concrete extension type exists in the shipped schemas, so no such call can validate."""
     b = case["builder"]
     strict = BUILDERS[b][1]
+    if case.get("pending") and not _finding_recorded(case["pending"]):
+        # a grid case that shows a defect of the unchanged code which is reported but not yet recorded in
+        # KNOWN_FINDINGS.jsonl: constrained as soon as the record (known or fixed) exists
+        return False
     if strict is None:
         return _finding_recorded(K_NIM_STATUS)
     if b == "name_id_mapping_request" and case["args"].get("base_id") and not case["args"].get("name_id"):
@@ -1918,7 +1946,28 @@ def _repair_nim_status(case, t):
     return t
 
 
-REPAIRS = [(K_NIM_STATUS, _repair_nim_status), (K_AA, _repair_aa), (K_DUP_ID, _repair_dup_id), (K_EIDAS_NF, _repair_eidas_nf), (K_ACTION_NS, _repair_action_ns), (K_PEFIM, _repair_pefim)]
+def _repair_pefim_nocert(case, t):
+    if not (case["cfg"].get("top", {}).get("sp_no_enc") and not case["args"].get("encrypt_cert_advice")):
+        return None
+    return _repair_pefim(case, t)
+
+
+def _repair_ep_string(case, t):
+    if case["builder"] not in ("entity_descriptor", "entities_descriptor") or case["cfg"].get("role") != "md":
+        return None
+    eps = case["cfg"]["service"].get("pdp", {}).get("endpoints", {}).get("authz_service", [])
+    if not any(isinstance(e, str) for e in eps):
+        return None
+    done = False
+    for n, _ in all_nodes(t):
+        if n[0] == MD and n[1] == "PDPDescriptor" and not any(k[1] == "AuthzService" for k in n[4]):
+            pos = next((i for i, k in enumerate(n[4]) if k[1] in ("AssertionIDRequestService", "NameIDFormat")), len(n[4]))
+            n[4].insert(pos, [MD, "AuthzService", [["", "Binding", S.BINDING_SOAP], ["", "Location", "https://e.verif.example/pdp"]], "", []])
+            done = True
+    return t if done else None
+
+
+REPAIRS = [(K_PEFIM_NOCERT, _repair_pefim_nocert), (K_EP_STRING, _repair_ep_string), (K_NIM_STATUS, _repair_nim_status), (K_AA, _repair_aa), (K_DUP_ID, _repair_dup_id), (K_EIDAS_NF, _repair_eidas_nf), (K_ACTION_NS, _repair_action_ns), (K_PEFIM, _repair_pefim)]
 
 
 def _empty_typed_value(t):
@@ -2220,7 +2269,240 @@ def arg_grid():
                 yield doc(b, cfg, a)
 
 
+def enc_grid():
+    """create_authn_response: the complete product of the encryption arguments
+    encrypt_assertion x encrypted_advice_attributes x pefim x {encrypt_cert_assertion given} x {encrypt_cert_advice given}
+    x {the requester's metadata has an encryption certificate} x (sign_response, sign_assertion)."""
+    for m in range(2 ** 8):
+        ea, eaa, pf, ca, cad, mdenc, sr, sa = [bool(m >> i & 1) for i in range(8)]
+        a = {"identity": {"mail": ["a@example.org"], "givenName": ["A"]}, "in_response_to": "id-e1", "destination": S.SP_ACS_POST,
+             "sp_entity_id": S.SP_ID, "name_id": {"text": "subject-1", "format": NAMEID_FORMATS[0]}, "authn": {"class_ref": ACCR[0]},
+             "encrypt_assertion": ea, "encrypted_advice_attributes": eaa, "pefim": pf, "sign_response": sr, "sign_assertion": sa}
+        if ca:
+            a["encrypt_cert_assertion"] = "sp_enc1"
+        if cad:
+            a["encrypt_cert_advice"] = "sp_enc1"
+        if m % 5 == 0:
+            a["encrypt_assertion_self_contained"] = False
+        c = {"op": "doc", "builder": "authn_response", "cfg": {"role": "idp", "svc": {}, "top": {} if mdenc else {"sp_no_enc": True}}, "args": a}
+        if pf and not mdenc and not cad:
+            c["pending"] = K_PEFIM_NOCERT  # PEFIM asked for, no certificate anywhere: the advice assertion goes out in clear
+        yield c
+
+
+SCM_SV = "urn:oasis:names:tc:SAML:2.0:cm:sender-vouches"
+SCM_BEARER = "urn:oasis:names:tc:SAML:2.0:cm:bearer"
+
+
+def farg_trees():
+    """Caller-supplied assertion argument trees (`farg=`): what can be preset on the paths update_farg and
+    do_subject_confirmation read, alone and together, with the empty shapes and None leaves a caller may leave around."""
+    def t(sc):
+        return {"assertion": {"subject": {"subject_confirmation": sc}}}
+
+    scd_fields = {"address": "192.0.2.7", "recipient": S.SP_ACS_REDIRECT, "in_response_to": "id-other", "not_before": S.fmt_time(S.NOW0 - 5),
+                  "not_on_or_after": S.fmt_time(S.NOW0 + 7)}
+    out = [{}, {"assertion": {}}, {"assertion": {"subject": {}}}, t({}), t({"subject_confirmation_data": {}}), {"unrelated": {"k": "1"}},
+           t({"method": None}), t({"subject_confirmation_data": {"recipient": None, "in_response_to": None}}),
+           t({"method": SCM_BEARER}), t({"method": SCM_SV}), t({"method": "urn:x-verif:cm:unknown"})]
+    for k, v in scd_fields.items():
+        out.append(t({"subject_confirmation_data": {k: v}}))                       # one field of the data, no method
+        out.append(t({"method": SCM_SV, "subject_confirmation_data": {k: v}}))   # ... with a method
+    out.append(t({"subject_confirmation_data": dict(scd_fields)}))
+    out.append(t({"method": SCM_BEARER, "subject_confirmation_data": dict(scd_fields)}))
+    out.append(t({"method": None, "subject_confirmation_data": {"address": "192.0.2.7", "recipient": None}}))
+    return out
+
+
+def farg_grid():
+    base = {"identity": {"mail": ["a@example.org"]}, "in_response_to": "id-f1", "destination": S.SP_ACS_POST, "sp_entity_id": S.SP_ID,
+            "name_id": {"text": "subject-1", "format": NAMEID_FORMATS[0]}}
+    idp0 = {"role": "idp", "svc": {}, "top": {}}
+    for i, tree in enumerate(farg_trees()):
+        a = dict(copy.deepcopy(base), farg=tree, authn={"class_ref": ACCR[0]}, sign_response=False, sign_assertion=bool(i % 2))
+        yield {"op": "doc", "builder": "authn_response", "cfg": idp0, "args": a}
+        yield {"op": "doc", "builder": "attribute_response", "cfg": idp0, "args": dict(copy.deepcopy(base), farg=copy.deepcopy(tree))}
+        if i % 3 == 0:
+            yield {"op": "doc", "builder": "authn_response", "cfg": idp0,
+                   "args": dict(copy.deepcopy(base), farg=copy.deepcopy(tree), authn={"class_ref": ACCR[0]}, encrypt_assertion=True, sign_assertion=True)}
+
+
+ENDPOINT_SERVICES = {
+    "sp": ["artifact_resolution_service", "single_logout_service", "manage_name_id_service", "assertion_consumer_service"],
+    "idp": ["artifact_resolution_service", "single_logout_service", "manage_name_id_service", "single_sign_on_service",
+            "name_id_mapping_service", "assertion_id_request_service"],
+    "aa": ["artifact_resolution_service", "single_logout_service", "manage_name_id_service", "assertion_id_request_service", "attribute_service"],
+    "pdp": ["authz_service"],
+    "aq": ["authn_query_service"],
+}
+_REQUIRED_EP = {"sp": ("assertion_consumer_service", [S.SP_ACS_POST, S.BINDING_POST]), "idp": ("single_sign_on_service", [S.IDP_SSO_REDIRECT, S.BINDING_REDIRECT]),
+                "aa": ("attribute_service", ["https://idp.verif.example/aa", S.BINDING_SOAP]), "pdp": ("authz_service", ["https://idp.verif.example/pdp", S.BINDING_SOAP]),
+                "aq": ("authn_query_service", ["https://idp.verif.example/aq", S.BINDING_SOAP])}
+
+
+def forms_grid():
+    """Configuration value FORMS for metadata generation: every endpoint service of every role written as a plain
+    string, a (location, binding) pair, a (location, binding, index) triple and a dictionary - alone and two entries of
+    mixed form; and the other options that accept several forms."""
+    def md(service, top=None):
+        t = {"with_keys": "none", "no_xmlsec": True}
+        t.update(top or {})
+        return {"op": "doc", "builder": "entity_descriptor", "cfg": {"role": "md", "service": service, "top": t}, "args": {"sign": False}}
+
+    for role, services in ENDPOINT_SERVICES.items():
+        req_svc, req_ep = _REQUIRED_EP[role]
+        for svc in services:
+            loc = "https://e.verif.example/%s/%s" % (role, svc)
+            forms = {"string": loc, "pair": [loc, S.BINDING_SOAP], "triple": [loc, S.BINDING_SOAP, 3],
+                     "dict": {"location": loc, "binding": S.BINDING_SOAP}, "dict_index": {"location": loc, "binding": S.BINDING_SOAP, "index": "4"},
+                     "dict_response_location": {"location": loc, "binding": S.BINDING_SOAP, "response_location": loc + "/r"}}
+            for fname, form in forms.items():
+                for extra in (None, [loc + "/2", S.BINDING_POST]):
+                    eps = {req_svc: [copy.deepcopy(req_ep)]}
+                    eps[svc] = (eps.get(svc, []) if svc != req_svc else []) + [copy.deepcopy(form)] + ([extra] if extra else [])
+                    c = md({role: {"endpoints": eps}})
+                    c["grid"] = "form:%s:%s:%s%s" % (role, svc, fname, "+pair" if extra else "")
+                    if fname == "string" and svc == req_svc and role == "pdp":
+                        c["pending"] = K_EP_STRING  # no default binding: the whole list is dropped, the descriptor is left without its required service
+                    yield c
+    sp = {"sp": {"endpoints": {"assertion_consumer_service": [[S.SP_ACS_POST, S.BINDING_POST]]}}}
+    variants = {
+        "name": ["svc", ["svc", "sv"]], "description": ["text", ["text", "sv"]],
+        "organization": [{"name": "N", "display_name": "D", "url": "http://e.example"},
+                         {"name": ["N", "en"], "display_name": ["D", "en"], "url": ["http://e.example", "en"]},
+                         {"name": [["N", "en"], ["M", "sv"]], "display_name": ["D", "E"], "url": [["http://e.example", "en"]]},
+                         {"name": ["N"], "display_name": [["D", "en"]], "url": ["http://e.example", "http://f.example"]}],
+        "contact_person": [[{"contact_type": "support", "email_address": "mailto:a@e.example"}],
+                           [{"contact_type": "support", "email_address": ["mailto:a@e.example", "mailto:b@e.example"], "telephone_number": "+1 555"}],
+                           [{"contact_type": "other", "given_name": "G", "sur_name": "S", "company": "C", "telephone_number": ["+1", "+2"]},
+                            {"contact_type": "billing"}],
+                           [{"given_name": "no type given"}]],
+        "entity_category": [["http://refeds.org/category/research-and-scholarship"], ["urn:a", "urn:b"]],
+        "valid_for": [1, "24"],
+    }
+    for k, vals in variants.items():
+        for i, v in enumerate(vals):
+            c = md(copy.deepcopy(sp), {k: v})
+            c["grid"] = "form:%s:%d" % (k, i)
+            yield c
+    spv = {
+        "name_id_format": [NAMEID_FORMATS[0], [NAMEID_FORMATS[0]], NAMEID_FORMATS[:3]],
+        "required_attributes": [["givenName"], ["givenName", "sn", "mail"], ["urn:oid:2.5.4.42"]],
+        "optional_attributes": [["mail"], ["customThing"]],
+        "authn_requests_signed": [True, False, "true", "false"], "want_assertions_signed": [True, False, "true"],
+        "ui_info": [{"display_name": "E"}, {"display_name": {"text": "E", "lang": "sv"}}, {"display_name": ["E", {"text": "F", "lang": "de"}]},
+                    {"logo": {"height": "1", "width": "2", "text": "http://e.example/l.png"}}, {"keywords": {"lang": "en", "text": ["a", "b"]}},
+                    {"description": "d", "information_url": "http://e.example/i", "privacy_statement_url": {"text": "http://e.example/p", "lang": "en"}}],
+        "discovery_response": [[["https://sp.verif.example/disco", S.BINDING_DISCO]], ["https://sp.verif.example/disco2"]],
+    }
+    for k, vals in spv.items():
+        for i, v in enumerate(vals):
+            svc = copy.deepcopy(sp)
+            svc["sp"][k] = v
+            c = md(svc)
+            c["grid"] = "form:sp.%s:%d" % (k, i)
+            yield c
+    idpv = {"scope": [["example.org"], ["a.example", "b.example"]], "want_authn_requests_signed": [True, False, "true"],
+            "name_id_format": [NAMEID_FORMATS[1], NAMEID_FORMATS[:2]], "error_url": ["http://e.example/err"]}
+    for k, vals in idpv.items():
+        for i, v in enumerate(vals):
+            c = md({"idp": {"endpoints": {"single_sign_on_service": [[S.IDP_SSO_POST, S.BINDING_POST]]}, k: v}})
+            c["grid"] = "form:idp.%s:%d" % (k, i)
+            yield c
+
+
+def maximal_cases():
+    """One instance per message class with ALL optional children and attributes set at once (order and cardinality
+    errors need two specific children in the same message), unsigned and signed."""
+    sp0 = {"role": "sp", "svc": {}, "top": {}}
+    sp_eidas = {"role": "sp", "svc": {"sp_type": "public", "sp_type_in_metadata": False, "requested_attributes": [{"friendly_name": "givenName", "required": True}],
+                                      "requested_authn_context": {"authn_context_class_ref": [ACCR[0], ACCR[1]], "comparison": "minimum"},
+                                      "name_id_policy_format": NAMEID_FORMATS[1], "name_id_format_allow_create": True, "force_authn": True}, "top": {}}
+    idp0 = {"role": "idp", "svc": {}, "top": {}}
+    nid = {"text": "subject-1", "format": NAMEID_FORMATS[1], "name_qualifier": S.IDP_ID, "sp_name_qualifier": S.SP_ID, "sp_provided_id": "p"}
+    for sign in (False, True):
+        for cfg in (sp0, sp_eidas):
+            yield {"op": "doc", "builder": "authn_request", "cfg": cfg, "args": {
+                "destination": S.IDP_SSO_POST, "binding": S.BINDING_POST, "sign": sign, "message_id": "id-max1", "consent": True,
+                "nameid_format": NAMEID_FORMATS[1], "allow_create": "true", "assertion_consumer_service_url": S.SP_ACS_POST,
+                "attribute_consuming_service_index": "1", "provider_name": "p", "force_authn": "true", "is_passive": "false",
+                "requested_authn_context": {"authn_context_class_ref": [ACCR[0], ACCR[1]], "comparison": "exact"},
+                "scoping": {"proxy_count": "2", "idp_list": [S.IDP_ID, S.IDP2_ID], "requester_id": ["https://r.example/1", "https://r.example/2"]},
+                "subject": nid, "conditions": {"not_before": S.fmt_time(S.NOW0), "not_on_or_after": S.fmt_time(S.NOW0 + 300), "audience": [S.SP_ID], "one_time_use": True},
+                "requested_attributes": [{"friendly_name": "mail", "required": False}], "extensions": "both"}}
+        for cfg in (sp0, idp0):
+            yield {"op": "doc", "builder": "logout_request", "cfg": cfg, "args": {
+                "destination": S.IDP_SLO_POST, "issuer_entity_id": S.IDP_ID, "name_id": nid, "reason": "urn:oasis:names:tc:SAML:2.0:logout:user",
+                "expire": S.fmt_time(S.NOW0 + 300), "session_indexes": ["si-1", "si-2"], "message_id": "id-max2", "consent": True, "extensions": "both", "sign": sign}}
+            yield {"op": "doc", "builder": "manage_name_id_request", "cfg": cfg, "args": {
+                "destination": "https://idp.verif.example/mni", "name_id": nid, "new_id": "new-1", "message_id": "id-max3", "extensions": "foreign", "sign": sign}}
+            yield {"op": "doc", "builder": "artifact_resolve", "cfg": cfg, "args": {
+                "destination": "https://idp.verif.example/ars", "sessid": "id-max4", "endpoint_index": 1, "consent": True, "extensions": "foreign", "sign": sign}}
+        yield {"op": "doc", "builder": "attribute_query", "cfg": sp0, "args": {
+            "destination": "https://idp.verif.example/aa", "name_id": nid, "message_id": "id-max5", "extensions": "foreign", "sign": sign,
+            "attribute": [[["urn:oid:2.5.4.42", "urn:oasis:names:tc:SAML:2.0:attrname-format:uri", "givenName"], None], ["plain", [["a", "b"], "xs:string"]]]}}
+        yield {"op": "doc", "builder": "authn_query", "cfg": sp0, "args": {
+            "subject": nid, "destination": "https://idp.verif.example/aq", "session_index": "si-1", "message_id": "id-max6", "extensions": "foreign", "sign": sign,
+            "authn_context": {"authn_context_class_ref": [ACCR[0], ACCR[1]], "comparison": "better"}}}
+        yield {"op": "doc", "builder": "authz_decision_query", "cfg": sp0, "args": {
+            "destination": "https://idp.verif.example/pdp", "action": [["read", "urn:oasis:names:tc:SAML:1.0:action:rwedc"], ["write", "urn:oasis:names:tc:SAML:1.0:action:rwedc"]],
+            "resource": "urn:r", "subject": nid, "via_assertion": False, "evidence": True, "message_id": "id-max7", "extensions": "foreign", "sign": sign}}
+        yield {"op": "doc", "builder": "name_id_mapping_request", "cfg": sp0, "args": {
+            "name_id_policy": {"format": NAMEID_FORMATS[1], "sp_name_qualifier": S.SP_ID, "allow_create": "true"}, "name_id": nid,
+            "destination": "https://idp.verif.example/nim", "extensions": "foreign", "sign": sign}}
+        full_farg = farg_trees()[-2]
+        for enc in (False, True):
+            yield {"op": "doc", "builder": "authn_response", "cfg": idp0, "args": {
+                "identity": {"mail": ["a@example.org", "b@example.org"], "givenName": ["A"], "uid": [5, True, 1.5], "customAttribute": ["c"]},
+                "in_response_to": "id-max8", "destination": S.SP_ACS_POST, "sp_entity_id": S.SP_ID, "name_id": nid,
+                "authn": {"class_ref": ACCR[0], "authn_auth": S.IDP_ID, "authn_instant": S.NOW0 - 30}, "session_not_on_or_after": S.fmt_time(S.NOW0 + 3600),
+                "farg": copy.deepcopy(full_farg), "sign_response": sign, "sign_assertion": sign, "encrypt_assertion": enc, "issuer": S.IDP_ID,
+                "status": {"code": "urn:oasis:names:tc:SAML:2.0:status:Success", "sub": None, "message": "m"}}}
+    # metadata: every option at once, per SPType variant
+    for sptype in ({}, {"sp_type": "public", "sp_type_in_metadata": True}, {"sp_type": "private", "sp_type_in_metadata": False}):
+        for xmlsec in (False, True):
+            spsvc = {"endpoints": {"assertion_consumer_service": [[S.SP_ACS_POST, S.BINDING_POST], [S.SP_ACS_REDIRECT, S.BINDING_REDIRECT, 7]],
+                                   "single_logout_service": [[S.SP_SLO_POST, S.BINDING_POST]], "manage_name_id_service": [["https://sp.verif.example/mni", S.BINDING_SOAP]],
+                                   "artifact_resolution_service": [["https://sp.verif.example/ars", S.BINDING_SOAP]]},
+                     "required_attributes": ["givenName", "sn"], "optional_attributes": ["mail"], "name_id_format": NAMEID_FORMATS[:2],
+                     "ui_info": {"display_name": "E", "description": "d", "information_url": "http://e.example/i", "privacy_statement_url": "http://e.example/p",
+                                 "logo": {"height": "1", "width": "2", "text": "http://e.example/l.png"}, "keywords": {"lang": "en", "text": ["a"]}},
+                     "discovery_response": [["https://sp.verif.example/disco", S.BINDING_DISCO]], "authn_requests_signed": True, "want_assertions_signed": True}
+            spsvc.update(sptype)
+            idpsvc = {"endpoints": {"single_sign_on_service": [[S.IDP_SSO_POST, S.BINDING_POST]], "single_logout_service": [[S.IDP_SLO_POST, S.BINDING_POST]],
+                                    "artifact_resolution_service": [["https://idp.verif.example/ars", S.BINDING_SOAP]],
+                                    "manage_name_id_service": [["https://idp.verif.example/mni", S.BINDING_SOAP]],
+                                    "name_id_mapping_service": [["https://idp.verif.example/nim", S.BINDING_SOAP]],
+                                    "assertion_id_request_service": [["https://idp.verif.example/airs", "urn:oasis:names:tc:SAML:2.0:bindings:URI"]]},
+                      "name_id_format": NAMEID_FORMATS[:2], "scope": ["example.org"], "ui_info": {"display_name": "I"}, "error_url": "http://e.example/err",
+                      "want_authn_requests_signed": True}
+            aasvc = {"endpoints": {"attribute_service": [["https://idp.verif.example/aa", S.BINDING_SOAP]],
+                                   "assertion_id_request_service": [["https://idp.verif.example/aa/airs", "urn:oasis:names:tc:SAML:2.0:bindings:URI"]]},
+                     "name_id_format": NAMEID_FORMATS[:1], "attribute": ["urn:oid:2.5.4.42"], "attribute_profile": ["urn:oasis:names:tc:SAML:2.0:profiles:attribute:basic"]}
+            top = {"with_keys": "sign+enc", "name": "svc", "description": ["d", "en"], "valid_for": 24,
+                   "organization": {"name": [["N", "en"]], "display_name": ["D"], "url": "http://e.example"},
+                   "contact_person": [{"contact_type": "technical", "given_name": "G", "sur_name": "S", "company": "C", "email_address": ["mailto:a@e.example"], "telephone_number": ["+1"]}],
+                   "entity_category": ["http://refeds.org/category/research-and-scholarship"], "entity_category_support": ["http://refeds.org/category/research-and-scholarship"],
+                   "assurance_certification": ["https://refeds.org/sirtfi"], "entity_attributes": [{"format": "urn:oasis:names:tc:SAML:2.0:attrname-format:uri", "name": "urn:x:a", "values": ["v"]}],
+                   "extensions": {"mdrpi": {"RegistrationInfo": {"registration_authority": "urn:x:ra", "registration_instant": "2026-01-01T00:00:00Z"}}}}
+            if not xmlsec:
+                top["no_xmlsec"] = True
+            cfg = {"role": "md", "service": {"sp": spsvc, "idp": idpsvc, "aa": aasvc,
+                                             "aq": {"endpoints": {"authn_query_service": [["https://idp.verif.example/aq", S.BINDING_SOAP]]}},
+                                             "pdp": {"endpoints": {"authz_service": [["https://idp.verif.example/pdp", S.BINDING_SOAP]]}, "name_id_format": NAMEID_FORMATS[:1]}}, "top": top}
+            yield {"op": "doc", "builder": "entity_descriptor", "cfg": cfg, "args": {"sign": xmlsec}}
+            yield {"op": "doc", "builder": "entities_descriptor", "cfg": cfg, "args": {"n": 2, "valid_for": 24, "name": "urn:fed", "ident": "id-fed1", "sign": xmlsec}}
+
+
 def gen_cases(rng, tier):
+    for c in maximal_cases():
+        yield c
+    for c in enc_grid():
+        yield c
+    for c in farg_grid():
+        yield c
+    for c in forms_grid():
+        yield c
     for c in md_grid():
         yield c
     for c in arg_grid():
